@@ -31,6 +31,7 @@ ScOf(j) == [single   |-> [n \in Node |-> ToSet(j.single[n])],
             wrap     |-> [n \in Node |-> j.wrap[n]],
             fail     |-> [n \in Node |-> j.fail[n]],
             procs    |-> [p \in 1..Len(j.procs) |-> j.procs[p]],
+            mode     |-> [n \in Node |-> j.mode[n]],
             sparse   |-> j.sparse]
 
 ZeroCnt == [c \in Callbacks |-> 0]
@@ -67,8 +68,8 @@ LoadP(st) ==
           /\ fL' = UNION {{[h |-> h, i |-> i, v |-> st.fL[h][i]] : i \in 1..Len(st.fL[h])} : h \in Node}
 
 \* ---- graph helpers over the scenario
-Edges(s) == {<<h, t>> \in Node \X Node : t # h /\ (t \in s.single[h] \/ t \in s.slice[h])}
-Succ(s, h) == (s.single[h] \cup s.slice[h]) \ {h}
+Succ(s, h) == IF s.mode[h] = "shortcut" THEN {} ELSE (s.single[h] \cup s.slice[h]) \ {h}
+Reached(md) == CASE md = "normal" -> Callbacks [] md = "beforeNil" -> {"resolve", "before"} [] md = "shortcut" -> {"after"}
 RECURSIVE ReachSet(_, _, _)
 ReachSet(s, frontier, seenSet) ==
   IF frontier = {} THEN seenSet
@@ -76,19 +77,20 @@ ReachSet(s, frontier, seenSet) ==
        IN ReachSet(s, nxt, seenSet \cup nxt)
 Reach(s, a) == ReachSet(s, {a}, {})
 EagerReach(s) == LET eager == Node \ s.lazy IN ReachSet(s, eager, eager)
-SelfOnly(s, h) == (h \in s.single[h] /\ ~s.selfOpt[h]) \/ (s.slice[h] = {h} /\ ~s.sliceOpt[h])
-NoSubst(s) == \A n \in Node : s.wrap[n] = "none" /\ s.fail[n] = "none"
-FaultReached(s) == \E n \in EagerReach(s) : s.fail[n] \in {"resolve", "before", "aps", "init", "after"}
+SelfOnly(s, h) == s.mode[h] # "shortcut" /\ ((h \in s.single[h] /\ ~s.selfOpt[h]) \/ (s.slice[h] = {h} /\ ~s.sliceOpt[h]))
+NoSubst(s) == \A n \in Node : s.wrap[n] = "none" /\ s.fail[n] = "none" /\ s.mode[n] = "normal"
+FaultReached(s) == \E n \in EagerReach(s) : s.fail[n] \in Reached(s.mode[n])
 
 \* ---- per-node lifecycle automaton driven by event names
 NextPc(ev, pc) ==
   CASE ev = "createBegin" -> IF pc = "idle" THEN "begun" ELSE "BAD"
     [] ev = "addFactory"  -> IF pc = "begun" THEN "exposed" ELSE "BAD"
+    [] ev = "binst"       -> IF pc = "begun" THEN "shortcut" ELSE "BAD"
     [] ev = "resolve"     -> IF pc = "exposed" THEN "resolved" ELSE "BAD"
     [] ev = "before"      -> IF pc = "resolved" THEN "before" ELSE "BAD"
     [] ev = "aps"         -> IF pc = "before" THEN "aps" ELSE "BAD"
     [] ev = "init"        -> IF pc = "aps" THEN "init" ELSE "BAD"
-    [] ev = "after"       -> IF pc = "init" THEN "after" ELSE "BAD"
+    [] ev = "after"       -> IF pc \in {"init", "shortcut"} THEN "after" ELSE "BAD"
     [] ev = "createEnd"   -> IF pc # "idle" THEN "idle" ELSE "BAD"
     [] OTHER -> pc
 
@@ -97,11 +99,11 @@ NextPc(ev, pc) ==
 DepsCheck == E.ev = "init" => \A d \in Succ(sc, E.n) : (E.n \notin Reach(sc, d)) => L1[d] # NoV
 \* C05: all of the holder's points are populated before its before-initialization callbacks
 \* (the event's own snapshot is taken inside the callback: primed variables)
-PopCheck == E.ev = "before" =>
+PopCheck == (E.ev = "before" /\ sc.mode[E.n] # "shortcut") =>
          /\ \A t \in sc.single[E.n] \ {E.n} : \E f \in fS' : f.h = E.n /\ f.t = t
          /\ \A t \in sc.slice[E.n] \ {E.n} : \E f \in fL' : f.h = E.n /\ f.v.n = t
 \* C05: a successful creation went through every callback, in order, in this attempt
-EndCheck == (E.ev = "createEnd" /\ E.ok) => mpc[E.n] = "after"
+EndCheck == (E.ev = "createEnd" /\ E.ok) => mpc[E.n] = (IF sc.mode[E.n] = "beforeNil" THEN "before" ELSE "after")
 \* C09: a start that returns nil met no injected fault on an eagerly reached component
 FaultCheck == (E.ev = "runReturn" /\ E.ok) => ~FaultReached(sc)
 \* C05: exactly the eager components and what they reach were created
@@ -163,7 +165,7 @@ M_C04_OneEarlyRef == \A n \in Node : Cardinality(seenRefs[n]) <= 1
 M_C04_PublishedClean == \A n \in Node : L1[n] # NoV => (L2[n] = NoV /\ n \notin L3 /\ n \notin inCr)
 M_C04_CleanFailure == (run \in {"ok", "err"} /\ \A n \in Node : mpc[n] = "idle") => (inCr = {} /\ L3 = {} /\ \A n \in Node : L2[n] = NoV)
 M_C05_Order == orderOK
-M_C05_Once == Started => \A n \in Node : /\ L1[n] # NoV => \A c \in Callbacks : cnt[n][c] = 1
+M_C05_Once == Started => \A n \in Node : /\ L1[n] # NoV => \A c \in Callbacks : cnt[n][c] = (IF c \in Reached(sc.mode[n]) THEN 1 ELSE 0)
                                           /\ n \notin created => \A c2 \in Callbacks : cnt[n][c2] = 0
 M_C05_DepsFirst == depsOK
 M_C05_PopulatedBeforeInit == popOK
